@@ -154,6 +154,13 @@ pub fn run(ctx: &Ctx) -> CheckResult {
             spaces.push(Space { cfg: Cfg::p3(k, tri[0], tri[1], tri[2]), alphabet: rough.clone(), depth: dr - 1, label: "S_rough" });
         }
     }
+    // periods that are multiples of 2^32 (legal for window-less indicators)
+    for &n in &[1usize << 32, (1usize << 32) + 2, 3usize << 32] {
+        spaces.push(Space { cfg: Cfg::p1(Kind::Ema, n), alphabet: int.clone(), depth: d - 2, label: "huge period" });
+        spaces.push(Space { cfg: Cfg::p1(Kind::Atr, n), alphabet: grid.clone(), depth: db - 1, label: "huge period" });
+        spaces.push(Space { cfg: Cfg::pm(Kind::Kc, n, 2.0), alphabet: grid.clone(), depth: db - 1, label: "huge period" });
+        spaces.push(Space { cfg: Cfg::p3(Kind::Macd, 3, n, n), alphabet: int.clone(), depth: d - 2, label: "huge period" });
+    }
     // tiny price unit: the slack tau(t)*M shrinks with M, an ulp of a percentage does not
     let tiny = with_reset(s_ops(&S_TINY));
     for tri in [[1usize, 2, 3], [3, 2, 1], [2, 5, 2], [12, 26, 9]] {
